@@ -200,5 +200,19 @@ check("C06", "proof",
       "Two recorded findings: empty list literal dump (test-pinned) and integer receiver before '.'.",
       "grammar-level obligations on the real compiled grammar (LALR conflict-freedom, production-set equality with the canonical precedence grammar), "
       "per-production unparser contracts by symbolic execution + z3 regex token-boundary obligations, bounded parser differential", "DESIGN.md 4/C06")
-for _p in ["C03","C04"]:
+check("C04", "proof",
+      "Raise-envelope contracts, two layers. Layer 1 (discharged): every Evaluator rule method that applies an operator or "
+      "function (conditionalor/and, expr, relation x7, addition, multiplication, unary, member_index, function_eval, "
+      "method_eval, exprlist, list/map literals, member_dot, evaluate) is executed symbolically from the real source for "
+      "every combination of 14 operand kinds (13 value kinds + error value) with the resolved function ABSTRACT: it may "
+      "return anything or raise any exception class of its declared envelope; obligation: the method returns or raises "
+      "CELEvalError only (every other exit is an R obligation). CELParser.parse is executed with lark's parser abstract "
+      "(returns or raises each lark error class): only CELParseError leaves.",
+      "layer 2 (each real built-in operator/function raises only its declared envelope) is a bounded check over a 60-value "
+      "boundary grid of all kinds (1-, 2-, sampled 3-argument calls); whole programs (every construct over atoms of every "
+      "kind, both runners, compile/program/evaluate/str+repr stages), parse-error positions over all short texts, and "
+      "CEL's minimum nesting in fresh interpreters with default / lowered / raised recursion limits are bounded stand-ins. "
+      "One recorded finding: malformed macro argument lists.",
+      "modular raise-envelope contracts (symbolic execution of the real rule methods against abstract callee envelopes) + bounded envelope/grid checks of the callees", "DESIGN.md 4/C04")
+for _p in ["C03"]:
     NA[_p] = _pending
